@@ -27,7 +27,7 @@ SUITES = ["g1_tseitin", "g1_kcolor", "g1_ecolor", "g1_domset", "g1_tiling", "g1_
 
 RULE = ("per family x {CNF, OPB}: graphs from a shape generator (null graph, isolated vertices, single edge, paths, "
         "stars, cycles, complete graphs, disconnected unions, Eulerian unions of cycles, random G(n,p), graphs with "
-        ">= 10 vertices; thorough tier: ALL labelled graphs with <= 4 vertices with the full parameter grid and ALL with 5 vertices with sampled parameters; quick tier: all with <= 3 vertices and a sample with 4) x parameters (k, d from -1/0 to n+1; "
+        ">= 10 vertices; both tiers: ALL labelled graphs with <= 4 vertices with the full parameter grid; thorough tier: ALL with 5 vertices and 300 with 6 vertices with sampled parameters) x parameters (k, d from -1/0 to n+1; "
         "charges: default, all-zero, all-one, random non-boolean, too short, too long; flags functional / alternative); "
         "distinct = distinct request line; non-trivial = graph has at least one vertex")
 ASSUMPTIONS = ["graph arguments are cnfgen.graphs.Graph objects built through add_edge (hypothesis GoodGraph in the theorems; "
@@ -715,19 +715,16 @@ def cases(ctx):
     for shape, n, edges in shape_graphs(rng, tier):
         full = n <= 4 and shape != "gnp"
         infos += infos_for_graph(rng, tier, shape, n, edges, full)
-    if tier == "quick":
-        for nn in range(0, 4):
-            for n, edges in all_graphs(nn):
-                infos += infos_for_graph(rng, tier, "all<=3", n, edges, True)
-        four = list(all_graphs(4))
-        for n, edges in rng.sample(four, 10):
-            infos += infos_for_graph(rng, tier, "some4", n, edges, True)
-    else:
-        for nn in range(0, 5):
-            for n, edges in all_graphs(nn):
-                infos += infos_for_graph(rng, tier, "all<=4", n, edges, True)
+    for nn in range(0, 5):
+        for n, edges in all_graphs(nn):
+            infos += infos_for_graph(rng, tier, "all<=4", n, edges, True)
+    if tier == "thorough":
         for n, edges in all_graphs(5):
             infos += infos_for_graph(rng, tier, "all5", n, edges, False)
+        six = list(itertools.combinations(range(1, 7), 2))
+        for _ in range(300):
+            edges = [list(e) for e in six if rng.random() < rng.choice([.2, .5, .8])]
+            infos += infos_for_graph(rng, tier, "some6", 6, edges, False)
     seen = set()
     for suite, info in infos:
         c = build(suite, info)
